@@ -74,6 +74,16 @@ NOT DECIDED
   ConvertSplitUnitSection::{new_with_filter, new_with_offsets} (single split unit: reserves unconditionally, no loop),
   section_wf itself (that FilterUnitSection::read_unit / FilterUnit::new establish it), ConvertUnit::{read_entry, add_entry}
   (that an entry with an id is actually added / a reference to a reserved id resolves), hashbrown vs the std map model.
+SELF-ATTACK (scratch copies of /repo; GIMLI_REPO=<copy> python3 vx/run.py filter_reserve; all exit 1, /repo exits 0)
+  m0  seeded: `if start == end { continue; }` before reserve_unit      invariants logged [reserve-every-unit], partition_ok
+                                                                        [reserve-reachable-only] fail at the `continue`
+  m1  `&offsets[start..end - 1]`                   underflow + slice bound (built-in, C19) + reserve_post assert [reserve-reachable-only]
+  m2a `.is_none()` -> `.is_some()` in the scan      inner-loop run invariant + lemma_partition_step pre [reserve-reachable-only]
+  m2b `offsets.get(end + 1)`                        lemma_partition_step pre (maximality) [reserve-reachable-only]
+  m3  `start` never advanced (`let mut start = 0;`, no `start = end;`)   run invariant before loop [reserve-reachable-only]
+  m4  reserve_unit: root insert removed             [reserve-root]
+  m5  reserve_unit: `unit.root()` instead of `unit.reserve()` for the offsets   [reserve-offsets] (+ reserved-count invariant)
+  m6  to_unit_offset: `wrapping_sub` instead of `checked_sub(..)?`       [unit-membership]
 OBSERVATION  the doc comment of new_with_filter says "Units with no reachable entries will be skipped." - the code does NOT
   skip them (and must not, see WHY); the comment describes the seeded defect, not the behaviour.
 """
